@@ -13,8 +13,17 @@ def declare(spec):
         '_status': STR, 'singleton': BOOL, 'respawn': BOOL, 'on_demand': BOOL,
         'max_age': INT, 'max_age_variance': INT, 'warmup_delay': REAL,
         'graceful_timeout': REAL, 'stop_signal': INT, 'stop_children': BOOL,
-        'max_retry': INT,
+        'max_retry': INT, 'res_name': STR, 'evpub_socket': Ref('PubSocket'), 'sockets': VAL,
+        'arbiter': Ref('Arbiter'), 'cmd': VAL, 'args': VAL, 'priority': INT, 'autostart': BOOL,
     })
+    spec.Class('PubSocket', fields={'closed': BOOL})
+    spec.Class('Arbiter', qual='circus.arbiter:Arbiter', fields={
+        'watchers': List(Ref('Watcher')), '_watchers_names': Dict(STR, Ref('Watcher')),
+        'evpub_socket': Ref('PubSocket'), 'sockets': VAL, '_stopping': BOOL, '_restarting': BOOL,
+        '_exclusive_running_command': VAL, 'warmup_delay': REAL, 'socket_event': BOOL,
+    })
+    spec.Class('Command', qual='circus.commands.base:Command', fields={})
+    spec.ghost('evlog', List(PUBEV))
     # ---- the exclusive slot (C10).  SyncHost = "whatever a synchronized method is bound to":
     # a Watcher (has .arbiter) or an Arbiter (has ._exclusive_running_command) or neither.
     spec.Class('SyncHost', fields={
